@@ -70,27 +70,13 @@ def run(chk):
 
     # ------------------------------------------------------------------ R3 key remapping / value identity on the fetch path
     r3 = chk.rule("C04.R3", "fetch: results are keyed by the caller's own key object, deserialised with that key, the bytes read for the same VALUE line and its flags; single-key reads return the found value itself")
-    for f in fetch:
-        _check_fetch_mapping(prog, f, r3)
-    for mname in ("get", "gat", "gets", "gats"):
-        f = prog.method("Client", mname)
-        rets = sorted([r for r in walk_no_nested(f.node) if isinstance(r, ast.Return) and r.value is not None], key=lambda r: r.lineno)
-        v = rets[-1].value if rets else None
-        ok = isinstance(v, ast.Call) and isinstance(v.func, ast.Attribute) and v.func.attr == "get" and len(v.args) == 2 and isinstance(v.args[0], ast.Name) and v.args[0].id == f.pos_params()[0].name
-        r3.expect(ok, "Client.%s returns result.get(key, default)" % mname, "Client.%s:value-filtered" % mname, "Client.%s returns `%s` rather than the found item itself (result.get(key, default)): a stored value that is falsy or otherwise special (b'', 0, '', [], False) comes back as the default" % (mname, node_src(v) if v is not None else None), fn=f, node=rets[-1] if rets else f.node)
-    store = [f for f in exchange.exchange_functions(prog) if f.param("values") is not None]
-    for f in store:
-        loops = [n for n in walk_no_nested(f.node) if isinstance(n, ast.For) and isinstance(n.iter, ast.Call) and isinstance(n.iter.func, ast.Attribute) and n.iter.func.attr == "items"]
-        ok = False
-        why = "no loop over values.items()"
-        if len(loops) == 1 and isinstance(loops[0].target, ast.Tuple) and isinstance(loops[0].target.elts[0], ast.Name):
-            kv = loops[0].target.elts[0].id
-            body = loops[0].body
-            app = [(i, s) for i, s in enumerate(body) if isinstance(s, ast.Expr) and isinstance(s.value, ast.Call) and isinstance(s.value.func, ast.Attribute) and s.value.func.attr == "append" and s.value.args and isinstance(s.value.args[0], ast.Name) and s.value.args[0].id == kv]
-            rebind = [i for i, s in enumerate(body) if isinstance(s, ast.Assign) and any(isinstance(t, ast.Name) and t.id == kv for t in s.targets)]
-            ok = len(app) >= 1 and (not rebind or app[0][0] < min(rebind))
-            why = "the caller's key is recorded after `%s` was re-bound to the prefixed wire key" % kv if app else "the caller's key is never recorded"
-        r3.expect(ok, "%s records the caller's key before prefixing" % f.qualname, "%s:results-keyed-by-wire-key" % f.qualname, "%s: %s, so results are reported under a key the caller never passed" % (f.qualname, why), fn=f, node=f.node)
+    # decided by evaluating the public methods end to end against scripted replies on exact key collections (the
+    # machinery of C05.R3): the value handed back for caller key K is deserialize(K, data block of K's VALUE line,
+    # flags of that line) [, its cas token]; store results are reported under the caller's key objects
+    from . import rules_C05
+
+    n_rows = rules_C05.retrieval_rows(prog, r3) + rules_C05.storage_rows(prog, r3, keying_only=True)
+    r3.floor("decision rows", n_rows, 40)
 
     # ------------------------------------------------------------------ R4 prefix symmetry
     r4 = chk.rule("C04.R4", "prefix symmetry: every key-addressed command validates and sends its key with self.key_prefix")
@@ -186,64 +172,3 @@ def _consuming_uses(f, pname):
         if not any(u is not v and any(x is u for x in ast.walk(v)) for v in uses):
             out.append(u)
     return out
-
-
-def _check_fetch_mapping(prog, f, r3):
-    """remapped = dict(zip(<checked keys built from keys>, keys)); extract: original = remapped[wire key];
-    deserialize(original, value-from-_readvalue, int(flags)); result[original] = value."""
-    zips = [c for c in walk_no_nested(f.node) if isinstance(c, ast.Call) and call_name(c) == "zip"]
-    ok = False
-    why = "no dict(zip(prefixed keys, caller keys)) found"
-    for z in zips:
-        if len(z.args) == 2 and all(isinstance(a, ast.Name) for a in z.args):
-            pk, ck = z.args[0].id, z.args[1].id
-            comp = [n for n in walk_no_nested(f.node) if isinstance(n, ast.Assign) and any(isinstance(t, ast.Name) and t.id == pk for t in n.targets) and isinstance(n.value, ast.ListComp)]
-            if comp:
-                c = comp[0].value
-                g = c.generators[0]
-                ok = isinstance(g.iter, ast.Name) and g.iter.id == ck and isinstance(c.elt, ast.Call) and call_name(c.elt) == "self.check_key" and not g.ifs
-                why = "the prefixed keys are not built by validating each caller key in order" if not ok else ""
-    r3.expect(ok, "%s maps each prefixed key back to the caller's key object, in order" % f.qualname, "%s:key-remap" % f.qualname, "%s: %s" % (f.qualname, why), fn=f, node=f.node)
-    ev = prog.method("Client", "_extract_value", required=False)
-    if ev is None:
-        r3.fail("Client._extract_value:missing", "the value extraction helper vanished", fn=f)
-        return
-    des = [c for c in walk_no_nested(ev.node) if isinstance(c, ast.Call) and call_name(c) == "self.serde.deserialize"]
-    rv = [n for n in walk_no_nested(ev.node) if isinstance(n, ast.Assign) and isinstance(n.value, ast.Call) and isinstance(n.value.func, ast.Name) and n.value.func.id == "_readvalue"]
-    lookup = [n for n in walk_no_nested(ev.node) if isinstance(n, ast.Assign) and isinstance(n.value, ast.Subscript) and isinstance(n.value.value, ast.Name) and n.value.value.id == "remapped_keys"]
-    ok = len(des) == 1 and len(rv) == 1 and len(lookup) == 1
-    why = "deserialize/_readvalue/remap lookup not found exactly once"
-    if ok:
-        d = des[0]
-        orig = lookup[0].targets[0].id if isinstance(lookup[0].targets[0], ast.Name) else None
-        wirekey = lookup[0].value.slice.id if isinstance(lookup[0].value.slice, ast.Name) else None
-        valvar = rv[0].targets[0].elts[1].id if isinstance(rv[0].targets[0], ast.Tuple) and len(rv[0].targets[0].elts) == 2 and isinstance(rv[0].targets[0].elts[1], ast.Name) else None
-        sizearg = rv[0].value.args[2] if len(rv[0].value.args) > 2 else None
-        # names bound by splitting the VALUE line
-        split = [n for n in walk_no_nested(ev.node) if isinstance(n, ast.Assign) and isinstance(n.value, ast.Call) and isinstance(n.value.func, ast.Attribute) and n.value.func.attr == "split" and isinstance(n.targets[0], ast.Tuple)]
-        # VALUE <key> <flags> <bytes> [<cas>]: positions 1..3 of every split of the line
-        pos = [[e.id if isinstance(e, ast.Name) else None for e in s_.targets[0].elts] for s_ in split]
-        names_ok = bool(pos) and all(len(x) >= 4 and x[1] == wirekey for x in pos) and len({(x[2], x[3]) for x in pos}) == 1
-        flagsvar, sizevar = (pos[0][2], pos[0][3]) if names_ok else (None, None)
-        a = d.args
-        ok = (
-            orig is not None and valvar is not None and names_ok and len(a) == 3
-            and isinstance(a[0], ast.Name) and a[0].id == orig
-            and isinstance(a[1], ast.Name) and a[1].id == valvar
-            and isinstance(a[2], ast.Call) and call_name(a[2]) == "int" and isinstance(a[2].args[0], ast.Name) and a[2].args[0].id == flagsvar
-            and isinstance(sizearg, ast.Call) and call_name(sizearg) == "int" and isinstance(sizearg.args[0], ast.Name) and sizearg.args[0].id == sizevar
-        )
-        why = "deserialize is not called as deserialize(caller's key, bytes read for this VALUE line, int(flags of this line))"
-        if ok:
-            rets = [r for r in walk_no_nested(ev.node) if isinstance(r, ast.Return) and isinstance(r.value, ast.Tuple)]
-            ok = bool(rets) and all(isinstance(r.value.elts[0], ast.Name) and r.value.elts[0].id == orig for r in rets)
-            why = "the key returned to the fetch loop is not the caller's key"
-    r3.expect(ok, "_extract_value: deserialize(original_key, value of this line, int(flags)); returns the caller's key", "Client._extract_value:mapping", "Client._extract_value: %s" % why, fn=ev, node=ev.node)
-    # the fetch loop stores under the key returned by _extract_value
-    call = [n for n in walk_no_nested(f.node) if isinstance(n, ast.Assign) and isinstance(n.value, ast.Call) and call_name(n.value) == "self._extract_value" and isinstance(n.targets[0], ast.Tuple)]
-    ok = False
-    if len(call) == 1 and len(call[0].targets[0].elts) == 3 and all(isinstance(e, ast.Name) for e in call[0].targets[0].elts):
-        k, v, b = [e.id for e in call[0].targets[0].elts]
-        st = [n for n in walk_no_nested(f.node) if isinstance(n, ast.Assign) and isinstance(n.targets[0], ast.Subscript) and isinstance(n.targets[0].slice, ast.Name) and n.targets[0].slice.id == k and isinstance(n.value, ast.Name) and n.value.id == v]
-        ok = len(st) == 1
-    r3.expect(ok, "%s stores result[key] = value for the pair returned by _extract_value" % f.qualname, "%s:result-store" % f.qualname, "%s does not store the extracted value under the extracted key" % f.qualname, fn=f, node=f.node)
